@@ -31,7 +31,7 @@ theorem binop_safe (op : Tok S) (a b : Value S) (hop : binTag op.tag = true)
     · next m n =>
       split
       · next h =>
-        obtain ⟨r, hr, hw, -, -⟩ := Mat.add_ok ha hb h.1 h.2
+        obtain ⟨r, hr, hw, -, -⟩ := Mat.NoPanic.add_ok ha hb h.1 h.2
         exact Res.safe_bind_ok hr hw
       · safe_leaf
     · safe_leaf
@@ -42,19 +42,19 @@ theorem binop_safe (op : Tok S) (a b : Value S) (hop : binTag op.tag = true)
     · next m n =>
       split
       · next h =>
-        obtain ⟨r, hr, hw, -, -⟩ := Mat.sub_ok ha hb h.1 h.2
+        obtain ⟨r, hr, hw, -, -⟩ := Mat.NoPanic.sub_ok ha hb h.1 h.2
         exact Res.safe_bind_ok hr hw
       · safe_leaf
     · safe_leaf
   -- star
   · split
     · safe_leaf
-    · next k m => exact (Mat.scale_shape k hb).1
-    · next m k => exact (Mat.scale_shape k ha).1
+    · next k m => exact (Mat.NoPanic.scale_shape k hb).1
+    · next m k => exact (Mat.NoPanic.scale_shape k ha).1
     · next m n =>
       split
       · next h =>
-        obtain ⟨r, hr, hw, -, -⟩ := Mat.mul_ok ha hb h
+        obtain ⟨r, hr, hw, -, -⟩ := Mat.NoPanic.mul_ok ha hb h
         exact Res.safe_bind_ok hr hw
       · safe_leaf
     · safe_leaf
@@ -66,7 +66,7 @@ theorem binop_safe (op : Tok S) (a b : Value S) (hop : binTag op.tag = true)
     · next m k =>
       split
       · safe_leaf
-      · exact (Mat.divScalar_shape k ha).1
+      · exact (Mat.NoPanic.divScalar_shape k ha).1
     · split <;> safe_leaf
     · safe_leaf
   -- caret
@@ -80,11 +80,11 @@ theorem binop_safe (op : Tok S) (a b : Value S) (hop : binTag op.tag = true)
     · next m n =>
       split
       · next h =>
-        obtain ⟨z, hz⟩ := Mat.rowDot_ok h.1 h.2.1 h.2.2
+        obtain ⟨z, hz⟩ := Mat.NoPanic.rowDot_ok h.1 h.2.1 h.2.2
         exact Res.safe_bind_ok hz trivial
       · split
         · next h =>
-          obtain ⟨z, hz⟩ := Mat.colDot_ok h.1 h.2.1 h.2.2
+          obtain ⟨z, hz⟩ := Mat.NoPanic.colDot_ok h.1 h.2.1 h.2.2
           exact Res.safe_bind_ok hz trivial
         · safe_leaf
     · safe_leaf
@@ -93,11 +93,11 @@ theorem binop_safe (op : Tok S) (a b : Value S) (hop : binTag op.tag = true)
     · next m n =>
       split
       · next h =>
-        obtain ⟨r, hr, hw, -, -⟩ := Mat.rowCross_ok h.1 h.2.1 h.2.2.1 h.2.2.2
+        obtain ⟨r, hr, hw, -, -⟩ := Mat.NoPanic.rowCross_ok h.1 h.2.1 h.2.2.1 h.2.2.2
         exact Res.safe_bind_ok hr hw
       · split
         · next h =>
-          obtain ⟨r, hr, hw, -, -⟩ := Mat.colCross_ok h.1 h.2.1 h.2.2.1 h.2.2.2
+          obtain ⟨r, hr, hw, -, -⟩ := Mat.NoPanic.colCross_ok h.1 h.2.1 h.2.2.1 h.2.2.2
           exact Res.safe_bind_ok hr hw
         · safe_leaf
     · safe_leaf
@@ -115,7 +115,7 @@ theorem unop_safe (op : Tok S) (v : Value S) (hop : unTag op.tag = true) (hv : v
   · split
     · safe_leaf
     · safe_leaf
-    · next m => exact (Mat.neg_shape hv).1
+    · next m => exact (Mat.NoPanic.neg_shape hv).1
     · safe_leaf
   · split <;> safe_leaf
   · split
